@@ -254,7 +254,8 @@ class Kernel:
             if not acts:
                 self.hang = ("deadlock", self._describe_blocked())
                 continue
-            if self.steps >= self.max_steps:
+            if self.steps - (self.chaos_steps or 0) >= self.max_steps:
+                # the cap counts steps after the chaos phase only (bounded liveness once adversity stops)
                 self.hang = ("step-cap", "steps=%d" % self.steps)
                 continue
             calm = self.chaos_steps is not None and self.steps >= self.chaos_steps
